@@ -58,9 +58,9 @@ def make_cases(rng, tier):
         a, m = mk_req(rng); m["tmpl"] = "none"; acts.append(a); meta.append(m)
     # real TLS requests: HTTP/1.0 without Host -> SNI; HTTP/1.1 with Host
     for sni in ("sni.example", ""):
-        acts.append({"a": "raw", "sni": sni, "req": H("GET /c HTTP/1.0\r\n\r\n"), "quiet_ms": 10})
+        acts.append({"a": "raw", "first_byte_ms": 15000, "sni": sni, "req": H("GET /c HTTP/1.0\r\n\r\n"), "quiet_ms": 10})
         meta.append({"form": "", "hdr": "", "host": "", "sni": sni, "tmpl": "none", "raw": True})
-    acts.append({"a": "raw", "sni": "sni.example", "req": H("GET /c HTTP/1.1\r\nHost: real.example:99\r\nConnection: close\r\n\r\n"), "quiet_ms": 10})
+    acts.append({"a": "raw", "first_byte_ms": 15000, "sni": "sni.example", "req": H("GET /c HTTP/1.1\r\nHost: real.example:99\r\nConnection: close\r\n\r\n"), "quiet_ms": 10})
     meta.append({"form": "", "hdr": "", "host": "real.example:99", "sni": "sni.example", "tmpl": "none", "raw": True})
     acts.append(PAR_ACT(16 if tier == "quick" else 32, 10 if tier == "quick" else 60)); meta.append(dict(PAR_META))
     acts.append({"a": "runscript"}); meta.append({"run": True})
@@ -185,7 +185,7 @@ def check(run):
     if err or not res or len(res) != len(cases):
         run.oblige("hsrv harness ran all cases", False, str(err))
         return
-    allterms, allinputs, dup = [], [], []
+    allterms, allinputs, dup, owner = [], [], [], []
     for c, r in zip(cases, res):
         if r.get("new_error"):
             if not c.get("_optional"):
@@ -194,7 +194,7 @@ def check(run):
                 run.cov["port_443_case"] = "skipped: " + r["new_error"][:100]
             continue
         t, i, ids = terms(c, r)
-        allterms += t; allinputs += i
+        allterms += t; allinputs += i; owner += [c["i"]] * len(t)
         if len(set(ids)) != len(ids):
             dup.append({"case": c["i"], "ids": [x.decode() for x in ids][:20]})
         for m, a in zip(c["_meta"], r.get("acts") or []):
@@ -208,6 +208,27 @@ def check(run):
     flagged, tgs, errors, _ = vlib.coq_eval(run.rundir, "c07", IMPORTS, "case", allterms, "judge_all")
     run.checker_cmds.append("coqc c07_k.v (vm_compute of Judge.C07.judge_all)")
     run.oblige("case evaluation inside Coq completed", not errors, "\n".join(errors))
+    # Cases made of sequential requests are deterministic by construction: something flagged there is confirmed by running that case once more on a
+    # fresh server before it is reported (one check in a fresh-copy run once reported ten such requests which no later run reproduced); what does not
+    # reproduce is recorded, not reported.  Cases with concurrent requests are reported as they are.
+    suspects = sorted({owner[i] for i, sv, c in flagged} | {d["case"] for d in dup})
+    retry = [k for k in suspects if not any(m.get("par") for m in cases[k]["_meta"])]
+    if retry:
+        res2, err2 = vlib.run_overlay_test(binp, "TestVerifHsrv", [send[k] for k in retry], run.rundir, tag="c07again", env=dict(os.environ, VERIF_TMP=run.rundir), timeout=600)
+        confirmed = set()
+        if not err2 and res2 and len(res2) == len(retry):
+            for k, r2 in zip(retry, res2):
+                t2, i2, ids2 = terms(cases[k], r2)
+                f2, _, e2, _ = vlib.coq_eval(run.rundir, "c07again%d" % k, IMPORTS, "case", t2, "judge_all") if t2 else ([], [], [], None)
+                if f2 or e2 or len(set(ids2)) != len(ids2) or r2.get("new_error"):
+                    confirmed.add(k)
+        else:
+            confirmed = set(retry)
+        gone = [k for k in retry if k not in confirmed]
+        if gone:
+            run.cov["flagged_once_but_not_reproduced"] = [{"case": k, "first_run": [dict(allinputs[i], clause=CLAUSES.get(c, c)) for i, sv, c in flagged if owner[i] == k][:3]} for k in gone]
+            flagged = [f for f in flagged if owner[f[0]] not in gone]
+            dup = [d for d in dup if d["case"] not in gone]
     viol = [f for f in flagged if f[1] == 2]
     for idx, sev, cl in viol[:10]:
         run.violation("script-clause-%d" % cl, CLAUSES.get(cl, str(cl)), {"stream": "requests", "input": allinputs[idx], "clause": cl})
